@@ -266,3 +266,20 @@ M("c14-module-accumulator", "C14", "esf/esf.py", "        self._computed = True\
   more=[("esf/esf.py", "logger = logging.getLogger(__name__)\n", "logger = logging.getLogger(__name__)\n_SEEN = []\n")])
 M("c01-res-shared-zeros", "C01", "esf/esf.py", "        for o in full_orders:\n            self.res.orders[o] = [self.zeros, self.zeros]", "        z = self.zeros\n        for o in full_orders:\n            self.res.orders[o] = [z, z]", expect=None)
 B("c14-key-tuple-direct", "C14", "sf.py", "            key = list(kinematics.values())\n            use_tmc_if_available = not use_raw and self.runner.configs.TMC != 0\n            key.append(use_tmc_if_available)\n            key = tuple(key)", "            use_tmc_if_available = not use_raw and self.runner.configs.TMC != 0\n            key = (*kinematics.values(), use_tmc_if_available)")
+
+# ----------------------------------------------------------------------------- C04
+NLF = CFD + "light/nlo/"
+M("c04-f2-reg-4z", "C04", NLF + "f2.py", "        + 6 + 4 * z\n", "        + 6 + 2 * z\n", expect="C04")
+M("c04-ns-omx-sign", "C04", NLF + "f2.py", "ns_omx = -3 * CF", "ns_omx = 3 * CF", expect="C04.nlo")
+M("c04-ns-logomx", "C04", NLF + "f2.py", "ns_logomx = 4 * CF", "ns_logomx = 2 * 4 * CF", expect="C04.nlo")
+M("c04-ns-delta", "C04", NLF + "f2.py", "ns_delta = -CF * (9 + 4 * zeta_2)", "ns_delta = -CF * (9 + 2 * zeta_2)", expect="C04")
+M("c04-fl-gluon", "C04", NLF + "fl.py", "    return nf * TR * 16 * z * (1.0 - z)", "    return nf * TR * 8 * z * (1.0 - z)", expect="fl_nc::Gluon")
+M("c04-f3-shift", "C04", NLF + "f3.py", "    return f2.ns_reg(z, args) - 2 * CF * (1 + z)", "    return f2.ns_reg(z, args) - 2 * CF * (1 - z)", expect="f3_nc::NonSinglet")
+M("c04-g1-gluon", "C04", NLF + "g1.py", "((2.0 * z - 1.0) * np.log((1.0 - z) / z) - 4.0 * z + 3.0)", "((2.0 * z - 1.0) * np.log((1.0 - z) / z) - 4.0 * z + 2.0)", expect="g1_nc::Gluon")
+M("c04-f2-gluon", "C04", NLF + "f2.py", "            + 16.0 * z * (1.0 - z)\n", "            + 8.0 * z * (1.0 - z)\n", expect="f2_nc::Gluon")
+M("c04-c3ns3b-only", "C04", CFD + "light/n3lo/xc3ns3p.py", "        + 5.01099e2 * dl1**3", "        + 5.11099e2 * dl1**3", expect="C04.soft")
+M("c04-nnlo-reg-digit", "C04", CFD + "light/nnlo/xc3ns2p.py", "res = - 206.1 - 576.8 * y - 3.922 * dl**3", "res = - 206.1 - 567.8 * y - 3.922 * dl**3", expect="C04.mom")
+M("c04-n3lo-reg-digit", "C04", CFD + "light/n3lo/xc3ns3p.py", "        - 496.95 * dl**3\n        - 1488.0 * dl**2", "        - 469.95 * dl**3\n        - 1488.0 * dl**2", expect="C04.mom")
+M("c04-adler-nnlo", "C04", CFD + "light/nnlo/xc2ns2p.py", "- 338.531 + 0.537 + nf", "- 338.531 + 0.637 + nf", expect="Adler")
+B("c04-reorder", "C04", NLF + "f2.py", "        + 6 + 4 * z\n", "        + 4 * z + 6\n")
+B("c04-f3-inline", "C04", NLF + "f3.py", "    return f2.ns_reg(z, args) - 2 * CF * (1 + z)", "    shift = 2 * CF * (1 + z)\n    return f2.ns_reg(z, args) - shift")
